@@ -947,8 +947,8 @@ def c19(tier, seed):
         cfgs = [("c19-tr", dict(MaxSend=2, Depth=4, BadBudget=2, SetBudget=0, SmallBufs=True)),
                 ("c19-tr-big", dict(MaxSend=1, Depth=3, BadBudget=1, SetBudget=0, SmallBufs=False, BigBudget=1)),
                 ("c19-sl-big", dict(Stateful=False, MaxSend=0, Depth=2, BadBudget=1, SetBudget=0, SmallBufs=False, BigBudget=1)),
-                ("c19-sl", dict(Stateful=False, MaxSend=2, Depth=4, BadBudget=2, SetBudget=0, SmallBufs=True))]
-        bk = "mix"
+                ("c19-sl", dict(Stateful=False, MaxSend=1, Depth=3, BadBudget=2, SetBudget=0, SmallBufs=True))]
+        bk = "mix-sample"
     # default backend for every cipher (incl. XChaChaPoly, BLAKE2), then ring-backed assignments
     r1 = replay("C19", t1, seed, 2, threads=14)
     t1b = session("c19-hs-ring", FaultBudget=1, FaultKinds=kinds, Profiles=["mid"], PubLens=[32], InitPads=[True, False],
